@@ -72,14 +72,41 @@ InitNum == /\ tree = JNull
                           f \in (IF MaxLen >= 4 THEN NFrames ELSE {g \in NFrames : Len(g[1]) <= 1}),
                           sg \in NSigns, i \in NInts, fr \in NFracs, ex \in NExps, u \in NUnits}
 
-Init == CASE Mode = "text" -> InitText [] Mode = "esc" -> InitEsc [] Mode = "num" -> InitNum [] OTHER -> InitTree
-Next == CASE Mode = "text" -> NextText [] Mode \in {"esc", "num"} -> UNCHANGED vars [] OTHER -> NextTree
+\* Field family: a timestamp, a date, a time and a coordinate with ONE field at a time set to the edges of its range and just
+\* beyond (month 00 / 13, day 31 in June / 32, hour 24, second 60, offsets up to +99:99, nine and more fraction digits,
+\* latitude 90.1 ...), zone names that exist or not - bare and inside a list, a dict and a grid cell
+DTx(y, mo, d, h, mi, sec, f, off, z) ==
+    K(y) \o <<45>> \o K(mo) \o <<45>> \o K(d) \o <<84>> \o K(h) \o <<58>> \o K(mi) \o <<58>> \o K(sec) \o K(f) \o K(off) \o K(z)
+FYears == {"0000", "9999", "10000", "021"}      FMonths == {"00", "01", "12", "13", "99"}      FDays == {"00", "01", "30", "31", "32", "99"}
+FHours == {"00", "23", "24", "99"}              FMins == {"00", "59", "60", "99"}              FSecs == {"00", "59", "60", "61", "99"}
+FFracs == {"", ".5", ".123456789", ".1234567890123", "."}
+FOffs == {"Z", "+00:00", "-00:00", "+14:00", "-12:00", "+23:59", "+24:00", "-34:00", "+99:99", "+5:00", "-0400", "+05:3"}
+FZones == {"", " UTC", " New_York", " Foo", " GMT+5", " Etc/GMT+5"}
+FieldTexts ==
+    {DTx(y, "06", "01", "10", "00", "00", "", "-04:00", " New_York") : y \in FYears}
+    \cup {DTx("2021", m, "01", "10", "00", "00", "", "-04:00", " New_York") : m \in FMonths}
+    \cup {DTx("2021", "06", d, "10", "00", "00", "", "-04:00", " New_York") : d \in FDays}
+    \cup {DTx("2021", "06", "01", h, "00", "00", "", "-04:00", " New_York") : h \in FHours}
+    \cup {DTx("2021", "06", "01", "10", m, "00", "", "-04:00", " New_York") : m \in FMins}
+    \cup {DTx("2021", "06", "01", "10", "00", x, "", "-04:00", " New_York") : x \in FSecs}
+    \cup {DTx("2021", "06", "01", "10", "00", "00", f, "-04:00", " New_York") : f \in FFracs}
+    \cup {DTx("2021", "06", "01", "10", "00", "00", "", o, " New_York") : o \in FOffs}
+    \cup {DTx("2021", "06", "01", "10", "00", "00", "", o, z) : o \in {"Z", "-04:00", "+24:00"}, z \in FZones}
+    \cup {K(y) \o K("-06-01") : y \in FYears} \cup {K("2021-") \o K(m) \o K("-01") : m \in FMonths} \cup {K("2021-02-") \o K(d) : d \in FDays \cup {"28", "29"}}
+    \cup {K(h) \o K(":00:00") : h \in FHours} \cup {K("10:") \o K(m) \o K(":00") : m \in FMins} \cup {K("10:00:") \o K(x) : x \in FSecs}
+    \cup {K("10:00:00") \o K(f) : f \in FFracs}
+    \cup {K("C(") \o K(la) \o K(",") \o K(ln) \o K(")") : la \in {"90", "-90", "90.1", "-91", "1e2", "", "+5", "45.5"}, ln \in {"180", "-180", "180.5", "-181", "23"}}
+FFrames == {<<<<>>, <<>>>>, <<K("["), K("]")>>, <<K("{a:"), K("}")>>, <<K("ver:\"3.0\"") \o <<10, 97, 44, 98, 10>>, <<44, 49, 10>>>>}
+InitFld == /\ tree = JNull /\ text \in {f[1] \o x \o f[2] : f \in FFrames, x \in FieldTexts}
+
+Init == CASE Mode = "text" -> InitText [] Mode = "esc" -> InitEsc [] Mode = "num" -> InitNum [] Mode = "fld" -> InitFld [] OTHER -> InitTree
+Next == CASE Mode = "text" -> NextText [] Mode \in {"esc", "num", "fld"} -> UNCHANGED vars [] OTHER -> NextTree
 Spec == Init /\ [][Next]_vars
 
 \* totality of the specification's own readers
-ReaderTotal == IF Mode \in {"text", "esc", "num"} THEN ZincRead(text).ok \in BOOLEAN ELSE HaysonRead(tree).ok \in BOOLEAN
+ReaderTotal == IF Mode \in {"text", "esc", "num", "fld"} THEN ZincRead(text).ok \in BOOLEAN ELSE HaysonRead(tree).ok \in BOOLEAN
 \* an accepted text is consumed entirely and reading is deterministic (same result twice)
 Emit == EmitVectors =>
-          IF Mode \in {"text", "esc", "num"} THEN PrintT("VEC " \o ToJson([op |-> "dec.zinc", text |-> text, src |-> "enum"]))
+          IF Mode \in {"text", "esc", "num", "fld"} THEN PrintT("VEC " \o ToJson([op |-> "dec.zinc", text |-> text, src |-> "enum"]))
           ELSE PrintT("VEC " \o ToJson([op |-> "dec.json.tree", tree |-> tree, src |-> "enum"]))
 =============================================================================
